@@ -58,6 +58,11 @@ class HarnessBug(Exception):
     pass
 
 
+class _Abort(BaseException):
+    """The real code already broke the property in this run and now behaves in ways the stepper
+    cannot follow (e.g. a task resumed by a stale handle): stop the case, keep the findings."""
+
+
 class _RawYield:
     def __init__(self, fut):
         self.fut = fut
@@ -161,6 +166,7 @@ class World:
         self.locks = [asyncio.Lock() for _ in range(2)]
         self.queues = [asyncio.Queue() for _ in range(2)]
         self.in_ext = set()
+        self.explicit_pause = False
         self.cur_class = None
 
     # ------------------------------------------------------------------ identity helpers
@@ -330,6 +336,13 @@ class World:
             c = self.classify(h._callback, h._args)
             if c[0] in ("s", "w"):
                 in_ready.add(c[1])
+            try:
+                tf = self.ext.task_from_handle(h, loop)
+            except Exception:
+                tf = None
+            mine = self.tasks[c[1]] if c[0] in ("s", "w") else None
+            if tf is not mine:
+                self.tags.add("task_from_handle-misclassifies")   # root-cause marker for keys
         for i, t in enumerate(self.tasks):
             if t.done() or i == curid:
                 continue
@@ -352,7 +365,7 @@ class World:
             self.tags.add("woken-not-run")
         if any("^i" in s for s in rd):
             self.tags.add("throw-pending")
-        if ctx == "S" and (rd or any(not t.done() for t in self.tasks)):
+        if ctx == "S" and self.explicit_pause and (rd or any(not t.done() for t in self.tasks)):
             self.tags.add("stopped-with-tasks-left")
         return obs
 
@@ -567,6 +580,8 @@ class World:
             try:
                 await self.do_op(wid, op)
             except BaseException as e:
+                if isinstance(e, GeneratorExit):
+                    raise
                 if isinstance(e, (HarnessBug, core.InfraError, _Pause)):
                     self.bug = e
                     raise
@@ -706,6 +721,8 @@ class World:
                 m = ("ext",)
             if m is None:
                 if not task.done():
+                    if self.problems:
+                        raise _Abort()
                     raise HarnessBug(f"task {t} suspended without telling the harness")
                 if t not in self.started:
                     self.outcome_delivery(t, task, c)
@@ -766,6 +783,7 @@ class World:
                 return
             if a[0] == "pause":
                 self.emit("pause", "ok")
+                self.explicit_pause = True
                 raise _Pause()
             if a[0] == "resume":
                 continue
@@ -809,6 +827,8 @@ class World:
                     pass
             self.drain()
             self.final_checks()
+        except _Abort:
+            self.tags.add("case-aborted-after-violation")
             if self.bug is not None:
                 raise core.InfraError(f"harness bug: {self.bug!r}")
         finally:
@@ -865,7 +885,10 @@ class World:
             if f.done() and not f.cancelled():
                 f.exception()
         for c in self.coros:
-            c.close()
+            try:
+                c.close()
+            except RuntimeError:
+                pass
         try:
             self.loop.close()
         except Exception:
